@@ -76,10 +76,73 @@ Proof. unfold add_count_break. rewrite orb_true_iff, !Z.eqb_eq. tauto. Qed.
 
 Lemma help_transfer_break_iff sc r ti :
   help_transfer_break sc r ti = true <->
-  0 <= sc \/ sc = r + MAX_RESIZERS \/ sc = r + 1 \/ ti <= 0.
+  0 <= sc \/ Z.shiftr sc RESIZE_STAMP_SHIFT <> Z.shiftr r RESIZE_STAMP_SHIFT \/
+  sc = r + MAX_RESIZERS \/ sc = r + 1 \/ ti <= 0.
 Proof.
-  unfold help_transfer_break. rewrite !orb_true_iff, !Z.eqb_eq, Z.geb_le, Z.leb_le. tauto.
+  unfold help_transfer_break.
+  rewrite !orb_true_iff, negb_true_iff, Z.eqb_neq, !Z.eqb_eq, Z.geb_le, Z.leb_le. tauto.
 Qed.
+
+(* ---------- generations: a helper only ever joins the resize of the table it holds ----------
+   help_transfer validates `table` and `next_table` and only then reads size_ctl; a whole resize can
+   complete in between, so the value read may belong to the resize of a later (longer) table.
+   Every size_ctl value of the resize of a table of length m is rs m + k with 0 <= k <=
+   MAX_RESIZERS; the test refuses all of them unless m is the length of the helper's own table. *)
+Definition stamp_aligned_b : bool :=
+  forallb (fun n => rs n mod 2 ^ RESIZE_STAMP_SHIFT =? 0) table_lengths.
+Lemma stamp_aligned n : In n table_lengths -> rs n mod 2 ^ RESIZE_STAMP_SHIFT = 0.
+Proof.
+  assert (H : stamp_aligned_b = true) by (vm_compute; reflexivity).
+  intros Hn. unfold stamp_aligned_b in H. rewrite forallb_forall in H. specialize (H n Hn). lia.
+Qed.
+
+Lemma shift_pos : 0 <= RESIZE_STAMP_SHIFT. Proof. vm_compute. discriminate. Qed.
+Lemma max_resizers_lt : MAX_RESIZERS < 2 ^ RESIZE_STAMP_SHIFT. Proof. vm_compute. reflexivity. Qed.
+
+Lemma generation_of_sc n k :
+  In n table_lengths -> 0 <= k < 2 ^ RESIZE_STAMP_SHIFT ->
+  Z.shiftr (rs n + k) RESIZE_STAMP_SHIFT = Z.shiftr (rs n) RESIZE_STAMP_SHIFT.
+Proof.
+  intros Hn Hk. rewrite !Z.shiftr_div_pow2 by exact shift_pos.
+  pose proof (stamp_aligned n Hn) as Ha.
+  set (P := 2 ^ RESIZE_STAMP_SHIFT) in *.
+  assert (HP : 0 < P) by (subst P; apply Z.pow_pos_nonneg; [lia | exact shift_pos]).
+  pose proof (Z.div_mod (rs n) P ltac:(lia)) as E. rewrite Ha, Z.add_0_r in E.
+  rewrite E at 1. rewrite Z.mul_comm, Z.div_add_l by lia.
+  rewrite (Z.div_small k P) by lia. lia.
+Qed.
+
+Definition generations_distinct_b : bool :=
+  forallb (fun n => forallb (fun m => (n =? m) ||
+     negb (Z.shiftr (rs n) RESIZE_STAMP_SHIFT =? Z.shiftr (rs m) RESIZE_STAMP_SHIFT)) table_lengths) table_lengths.
+Lemma generations_distinct n m :
+  In n table_lengths -> In m table_lengths -> n <> m ->
+  Z.shiftr (rs n) RESIZE_STAMP_SHIFT <> Z.shiftr (rs m) RESIZE_STAMP_SHIFT.
+Proof.
+  assert (H : generations_distinct_b = true) by (vm_compute; reflexivity).
+  intros Hn Hm Hne. unfold generations_distinct_b in H. rewrite forallb_forall in H.
+  specialize (H n Hn). rewrite forallb_forall in H. specialize (H m Hm).
+  apply orb_prop in H as [H|H]; [lia|]. apply negb_true_iff, Z.eqb_neq in H. exact H.
+Qed.
+
+Theorem helper_joins_own_generation n m k ti :
+  In n table_lengths -> In m table_lengths -> n <> m -> 0 <= k <= MAX_RESIZERS ->
+  help_transfer_break (rs m + k) (rs_help_transfer n) ti = true.
+Proof.
+  intros Hn Hm Hne Hk. apply help_transfer_break_iff. right. left.
+  rewrite generation_of_sc by (try assumption; pose proof max_resizers_lt; lia).
+  change (rs_help_transfer n) with (rs n).
+  intro E. exact (generations_distinct m n Hm Hn (fun e => Hne (eq_sym e)) E).
+Qed.
+
+(* the test as it was before the fix (finding F6) lets a helper holding a 16-bin table join the
+   resize of the 32-bin table that replaced it *)
+Definition help_transfer_break_before_fix (sc r ti : Z) : bool :=
+  (sc >=? 0) || (sc =? r + MAX_RESIZERS) || (sc =? r + 1) || (ti <=? 0).
+Example stale_helper_was_admitted :
+  help_transfer_break_before_fix (rs 32 + 2) (rs_help_transfer 16) 32 = false /\
+  help_transfer_break (rs 32 + 2) (rs_help_transfer 16) 32 = true.
+Proof. split; vm_compute; reflexivity. Qed.
 
 (* ---------- capacity rounding ---------- *)
 
